@@ -163,12 +163,12 @@ class AssignHook:
         self.cls._assign_pages = self.orig
 
 
-def pages_of(doc):
+def pages_of(doc, extra=None):
     """-> (page_of_row dict, per-page info list) or None when a block is unclassifiable"""
     page_of = {}
     info = []
     for p, pg in enumerate(doc.pages):
-        roles = E.page_roles(pg)
+        roles = E.page_roles(pg, extra)
         if any(r is None for r, _ in roles):
             return None, None
         rows = [E.data_key(b)[0] for r, b in roles if r == "data"]
@@ -197,7 +197,16 @@ def check_spec(ctx, spec, hook, rng=None, prefix=False):
         return
     doc = R.parse(o.out)
     ctx.count("docs_parsed")
-    page_of, pinfo = pages_of(doc)
+    names0 = [c["name"] for c in spec["df"]["cols"]]
+    extra = {"heading": set(), "subline_by": set()}
+    for c in spec["body"].get("page_by") or []:
+        extra["heading"] |= {str(v) for v in spec["df"]["cols"][names0.index(c)]["values"]}
+    sbc = spec["body"].get("subline_by") or []
+    if sbc:
+        nn = len(spec["df"]["cols"][0]["values"])
+        extra["subline_by"] = {", ".join(str(spec["df"]["cols"][names0.index(c)]["values"][r]) for c in sbc)
+                               for r in range(nn)}
+    page_of, pinfo = pages_of(doc, extra)
     if page_of is None:
         ctx.violation("unclassifiable block", case, None)
         return
@@ -268,7 +277,7 @@ def check_spec(ctx, spec, hook, rng=None, prefix=False):
         pre["df"] = {"cols": [dict(c, values=c["values"][:m]) for c in spec["df"]["cols"]]}
         o2 = H.build_and_encode(pre)
         if o2.stage is None:
-            po2, _ = pages_of(R.parse(o2.out))
+            po2, _ = pages_of(R.parse(o2.out), extra)
             if po2 is not None:
                 ctx.count("prefix_pairs_compared")
                 diff = [r for r in range(m) if po2.get(r) != page_of.get(r)]
@@ -357,9 +366,30 @@ def run_shard(desc, ctx):
                 if rng.random() < 0.3:
                     res["footnote"] = rng.random() < 0.5
                 mode = rng.choice(["plain", "plain", "page_by", "page_by_new", "page_by_new_first", "subline",
-                                   "subline_page_by"])
+                                   "subline_page_by", "collide"])
                 g, extra = None, {}
-                if mode != "plain":
+                if mode == "collide":
+                    # multi-level keys whose stringified values run together ambiguously: (1,11) vs (11,1),
+                    # ('A','BC') vs ('AB','C') - a joined comparison key without separator confuses them
+                    fam = rng.choice([["1", "11", "111"], ["A", "AB", "B", "BC", "C"], ["x", "xx"]])
+                    runs = G.split_runs(rng, n, 6)
+                    keys, prev = [], None
+                    for ln in runs:
+                        k2 = (rng.choice(fam), rng.choice(fam))
+                        while k2 == prev:
+                            k2 = (rng.choice(fam), rng.choice(fam))
+                        prev = k2
+                        keys += [k2] * ln
+                    cols2 = [[k[0] for k in keys], [k[1] for k in keys]]
+                    if rng.random() < 0.5:
+                        g = {"page_by": [], "subline_by": cols2}
+                    else:
+                        g = {"page_by": cols2}
+                        extra["new_page"] = True
+                        if rng.random() < 0.5:
+                            extra["pageby_row"] = "first_row"
+                    mode = "plain_done"
+                if mode not in ("plain", "plain_done"):
                     lv = rng.choice([1, 2, 3]) if mode.startswith("page_by") else 1
                     keys = G.gen_group_keys(rng, n, lv + (1 if mode == "subline_page_by" else 0),
                                             maxruns=rng.choice([2, 3, 5]), reuse_inner=False)
